@@ -421,7 +421,7 @@ func (x *world) settle() bool {
 			continue
 		}
 		// running, blocked, or finished with a report nobody consumed yet
-		if rep, ok := x.s.TryAwait(p, 2*time.Second); ok {
+		if rep, ok := x.s.TryAwait(p, 8*time.Second); ok {
 			x.absorb(p, rep)
 			progress = true
 		}
